@@ -104,6 +104,14 @@ pub fn nav_obs(text: &str, m: ColumnMetrics, p: Pos, pat: &str, pred: usize) -> 
         guarded(|| wire::opt_pos(m.position_after_chars_matching(text, p, f))),
         guarded(|| wire::opt_pos(m.next_position_after_chars_matching(text, p, f))),
         guarded(|| wire::b(m.is_line_break(text, p.byte)).to_string()),
+        // `SourceText::iter_columns`: the positions after each column step from `p` (first 12)
+        guarded(|| {
+            let source = tephra_span::SourceText::new(text).with_column_metrics(m);
+            let v: Vec<String> = source.iter_columns(p).take(12)
+                .map(|(s, q)| format!("{}:{}", s.len(), wire::pos(q).replace(',', ".")))
+                .collect();
+            format!("[{}]", v.join(";"))
+        }),
     ]
     .join("|")
 }
